@@ -5,12 +5,13 @@ CONSTANTS
   P1 = "trace.parent_id"
   P2 = "parentId"
   MapOrder <- MapOrderDef
-  TraceOrders <- OrdersMid
-  ParentOrders <- OrdersMid
+  TraceOrders <- TraceOrdersBig
+  ParentOrders <- ParentOrdersBig
   Orders <- OrdersMid
   SeqPaths = {"msgp", "jsonbatch", "umsg"}
   MapPaths = {"map", "json"}
   PTypings = {"absent", "str", "empty", "nonstr"}
+  STypings = {"absent", "log", "trace", "empty", "nonstr"}
   Faithful = TRUE
 CHECK_DEADLOCK FALSE
 INVARIANTS TypeOK C21Belongs C21ConfiguredOrder C21Root C21OrderIndependent OnlyIdeal
